@@ -18,6 +18,7 @@ fn main() {
   if args.len() >= 6 && args[1] == "child" {
     match args[2].as_str() {
       "c05" => child::child_main(&args[3..], drive::c05::child_case),
+      "c12" => child::child_main(&args[3..], drive::c12::child_case),
       _ => std::process::exit(2),
     }
   }
@@ -53,6 +54,7 @@ fn main() {
     "C09" => drive::c09::check(Ctx::new(id, &tier, "model_checking"), replay),
     "C10" => drive::c10::check(Ctx::new(id, &tier, "exploration"), replay),
     "C11" => drive::c11::check(Ctx::new(id, &tier, "exploration"), replay),
+    "C12" => drive::c12::check(Ctx::new(id, &tier, "fault_enumeration"), replay),
     "C13" => drive::c13::check(Ctx::new(id, &tier, "model_checking"), replay),
     "C14" => drive::c14::check(Ctx::new(id, &tier, "exploration"), replay),
     "C15" => drive::c15::check(Ctx::new(id, &tier, "exploration"), replay),
